@@ -1,6 +1,7 @@
 import AscaVerif.Model.Mods
 import AscaVerif.Model.Render
 import AscaVerif.Model.ParseWord
+import AscaVerif.Model.Interp.Apply
 /-! Line-protocol driver for the model (compiled `lean_exe`; imports the model only — core Lean). -/
 open Asca
 
@@ -86,6 +87,13 @@ def parseMods (ts : List String) : Option (Modifiers × List String) := do
   if ns.length != 8 || fs.length != 26 then none
   else pure ({ nodes := ns, feats := fs }, ts.drop 34)
 
+/-- outcome class only (the panic / loop site is printed by the `…v` verbose ops) -/
+def showResClass {α} (f : α → String) : Res α → String
+  | .ok a => f a
+  | .err e => s!"err {e}"
+  | .panic _ => "panic"
+  | .outOfFuel _ => "fuel"
+
 def showRes {α} (f : α → String) : Res α → String
   | .ok a => f a
   | .err e => s!"err {e}"
@@ -161,6 +169,128 @@ def showWord (w : Word) : String :=
 
 def showText (t : Text) : String := " ".intercalate (t.map toString)
 
+/-! ## rule token stream (see `verif::parse_rule_ast`) -/
+
+def parseOptNat (t : String) : Option (Option Nat) := if t == "-" then some none else t.toNat?.map some
+
+def parseFullMods (ts : List String) : Option (Modifiers × List String) := do
+  let ns ← (ts.take 8).mapM parseMod
+  let fs ← ((ts.drop 8).take 26).mapM parseMod
+  match ts.drop 34 with
+  | a :: b :: c :: d :: t :: rest =>
+    let a ← parseMod a; let b ← parseMod b; let c ← parseMod c; let d ← parseMod d; let t ← parseOptNat t
+    if ns.length != 8 || fs.length != 26 then none
+    else pure ({ nodes := ns, feats := fs, suprs := { stress := a, secStress := b, long := c, overlong := d, tone := t } }, rest)
+  | _ => none
+
+def parseOptMods (ts : List String) : Option (Option Modifiers × List String) :=
+  match ts with
+  | "0" :: rest => some (none, rest)
+  | "1" :: rest => do let (m, r) ← parseFullMods rest; pure (some m, r)
+  | _ => none
+
+mutual
+partial def parseItem (ts : List String) : Option (Item × List String) :=
+  match ts with
+  | "E" :: r => some (.emptySet, r)
+  | "W" :: r => some (.wordBound, r)
+  | "B" :: r => some (.syllBound, r)
+  | "L" :: r => some (.ellipsis, r)
+  | "M" :: r => some (.metathesis, r)
+  | "S" :: r => do let (is, r') ← parseItems r; pure (.set is, r')
+  | "I" :: r => do
+    let (seg, r1) ← parseSeg r
+    let (m, r2) ← parseOptMods r1
+    pure (.ipa seg m, r2)
+  | "X" :: r => do
+    let (m, r1) ← parseFullMods r
+    match r1 with
+    | v :: r2 => do let v ← parseOptNat v; pure (.matrix m v, r2)
+    | _ => none
+  | "Y" :: a :: b :: t :: v :: r => do
+    let a ← parseMod a; let b ← parseMod b; let t ← parseOptNat t; let v ← parseOptNat v
+    pure (.syllable a b t v, r)
+  | "T" :: r => do
+    let (is, r1) ← parseItems r
+    match r1 with
+    | a :: b :: t :: v :: r2 => do
+      let a ← parseMod a; let b ← parseMod b; let t ← parseOptNat t; let v ← parseOptNat v
+      pure (.struct is a b t v, r2)
+    | _ => none
+  | "O" :: r => do
+    let (is, r1) ← parseItems r
+    match r1 with
+    | mn :: mx :: r2 => do let mn ← mn.toNat?; let mx ← mx.toNat?; pure (.optional is mn mx, r2)
+    | _ => none
+  | "V" :: n :: r => do
+    let n ← n.toNat?
+    let (envs, r') ← parseEnvs n r
+    pure (.environment envs, r')
+  | "N" :: d :: r => do
+    let d ← d.toNat?
+    let (m, r') ← parseOptMods r
+    pure (.variable d m, r')
+  | _ => none
+
+partial def parseItems (ts : List String) : Option (List Item × List String) :=
+  match ts with
+  | n :: r => do let n ← n.toNat?; parseItemsN n r
+  | _ => none
+
+partial def parseItemsN (n : Nat) (ts : List String) : Option (List Item × List String) :=
+  if n == 0 then some ([], ts) else do
+    let (i, r) ← parseItem ts
+    let (is, r') ← parseItemsN (n - 1) r
+    pure (i :: is, r')
+
+partial def parseEnvs (n : Nat) (ts : List String) : Option (List (List Item × List Item) × List String) :=
+  if n == 0 then some ([], ts) else do
+    let (b, r1) ← parseItems ts
+    let (a, r2) ← parseItems r1
+    let (es, r3) ← parseEnvs (n - 1) r2
+    pure ((b, a) :: es, r3)
+end
+
+partial def parseLists (n : Nat) (ts : List String) : Option (List (List Item) × List String) :=
+  if n == 0 then some ([], ts) else do
+    let (l, r) ← parseItems ts
+    let (ls, r') ← parseLists (n - 1) r
+    pure (l :: ls, r')
+
+def parseRule (ts : List String) : Option (Rule × List String) :=
+  match ts with
+  | ni :: r => do
+    let ni ← ni.toNat?
+    let (inp, r1) ← parseLists ni r
+    match r1 with
+    | no :: r2 => do
+      let no ← no.toNat?
+      let (outp, r3) ← parseLists no r2
+      let (ctx, r4) ← parseItems r3
+      let (exc, r5) ← parseItems r4
+      pure ({ input := inp, output := outp, context := ctx, except := exc }, r5)
+    | _ => none
+  | _ => none
+
+/-- `apply <fuel> <nrules> {rule}* ; <word>`: the rules applied in order to the word -/
+def opApply (verbose : Bool) (ts : List String) : String :=
+  match ts with
+  | fuel :: n :: rest =>
+    match fuel.toNat?, n.toNat? with
+    | some fuel, some n =>
+      let rec rules (k : Nat) (ts : List String) (acc : List Rule) : Option (List Rule × List String) :=
+        match k with
+        | 0 => some (acc.reverse, ts)
+        | k + 1 => match parseRule ts with | some (r, ts') => rules k ts' (r :: acc) | none => none
+      match rules n rest [] with
+      | some (rs, ";" :: wts) =>
+        match parseWordFlat wts with
+        | some (w, _) => (if verbose then showRes else showResClass) showWord (rs.foldlM (fun w r => Interp.applyRule fuel r w) w)
+        | none => "bad-op word"
+      | _ => "bad-op rules"
+    | _, _ => "bad-op"
+  | _ => "bad-op"
+
 structure DState where
   ord : Render.Table := Gen.cardinals
 
@@ -181,6 +311,8 @@ def handleOp (st : DState) (line : String) : DState × String :=
     match parseSeg rest with
     | some (s, _) => (st, showRes (fun o => match o with | some t => showText t | none => "none") (Render.segToText st.ord s))
     | none => (st, "bad-op")
+  | "apply" :: rest => (st, opApply false rest)
+  | "applyv" :: rest => (st, opApply true rest)
   | "parsew" :: cps =>
     match cps.mapM String.toNat? with
     | some t => (st, showRes showWord (ParseWord.parseInput t))
